@@ -318,9 +318,50 @@ def repeated_validation():
     return out
 
 
+type Number = int | float
+
+
+class Measurement(State):      # a union nested in a union survives only through an alias or a type parameter
+    value: Number | str = 0
+    note: str | Number | None = None
+
+
+class Box[T](State):
+    content: T | None = None
+
+
+def nested_unions():
+    out = []
+    for label, make, want in (
+            ("Measurement(value=1).updated(value='n/a')", lambda: Measurement(value=1).updated(value="n/a"), dict(value="n/a")),
+            ("Measurement(value='x').updated(value=2.5)", lambda: Measurement(value="x").updated(value=2.5), dict(value=2.5)),
+            ("Measurement(note=None).updated(note='n')", lambda: Measurement().updated(note="n"), dict(note="n")),
+            ("copy of Measurement(value='n/a', note=1.5)", lambda: copy.copy(Measurement(value="n/a", note=1.5)), dict(value="n/a", note=1.5)),
+            ("deepcopy of Measurement(value='n/a')", lambda: copy.deepcopy(Measurement(value="n/a")), dict(value="n/a")),
+            ("Box[int | str]().updated(content='s')", lambda: Box[int | str]().updated(content="s"), dict(content="s")),
+            ("Box[int | str](content=3).updated()", lambda: Box[int | str](content=3).updated(), dict(content=3)),
+            ("copy of Box[int | str]()", lambda: copy.copy(Box[int | str]()), dict(content=None))):
+        try:
+            got = make()
+        except BaseException as e:  # noqa
+            out.append(f"{label} raised {type(e).__name__}: the valid replacement / the copy was not accepted")
+            continue
+        for k, v in want.items():
+            if getattr(got, k) != v or type(getattr(got, k)) is not type(v):
+                out.append(f"{label}: attribute {k} is {getattr(got, k)!r}, expected {v!r}")
+    for label, make in (("Measurement().updated(value=b'bytes')", lambda: Measurement().updated(value=b"bytes")),
+                        ("Box[int | str]().updated(content=2.5)", lambda: Box[int | str]().updated(content=2.5))):
+        try:
+            make()
+            out.append(f"{label} was accepted")
+        except Exception:  # noqa
+            pass
+    return out
+
+
 def main():
     sys.stdin.read()
-    p = problems() or repeated_validation()
+    p = problems() or repeated_validation() or nested_unions()
     if p:
         print(json.dumps(dict(reproduced=True, detail=dict(problems=p[:5]), cases_tried=1)))
     else:
